@@ -1499,3 +1499,69 @@ B("c06-benign-sanitize-twice", "C06", "scope.go",
 """)
 B("c06-benign-flipped-range-cmp", "C06", "sanitize.go",
   "				if ch >= c.Ranges[i][0] && ch <= c.Ranges[i][1] {", "				if c.Ranges[i][0] <= ch && c.Ranges[i][1] >= ch {")
+
+# ---------------------------------------------------------------- C04 names and tags
+M("c04-merge-reversed", "C04", "scope.go",
+  """	for k, v := range tagsLeft {
+		result[k] = v
+	}
+	for k, v := range tagsRight {
+		result[k] = v
+	}""", """	for k, v := range tagsRight {
+		result[k] = v
+	}
+	for k, v := range tagsLeft {
+		result[k] = v
+	}""", expect="O3 overlay-order")
+M("c04-merge-args-swapped", "C04", "scope_registry.go",
+  "	allTags := mergeRightTags(parent.tags, tags)", "	allTags := mergeRightTags(tags, parent.tags)", expect="O2 inheritance")
+M("c04-merge-into-left", "C04", "scope.go",
+  """	result := make(map[string]string, len(tagsLeft)+len(tagsRight))
+	for k, v := range tagsLeft {
+		result[k] = v
+	}
+	for k, v := range tagsRight {
+		result[k] = v
+	}
+	return result""", """	for k, v := range tagsRight {
+		tagsLeft[k] = v
+	}
+	return tagsLeft""", expect="O")
+M("c04-child-default-separator", "C04", "scope_registry.go",
+  "		separator: parent.separator,", "		separator: DefaultSeparator,", expect="O2 inheritance")
+M("c04-child-root-reporter", "C04", "scope_registry.go",
+  "		reporter:       parent.reporter,", "		reporter:       r.root.reporter,", expect="O2 inheritance")
+M("c04-tags-not-copied", "C04", "scope.go",
+  "	s.tags = s.copyAndSanitizeMap(opts.Tags)", "	s.tags = opts.Tags", expect="O4 copy-on-ingress")
+M("c04-tagged-drops-prefix", "C04", "scope.go",
+  "	return s.subscope(s.prefix, tags)", "	return s.subscope(\"\", tags)", expect="O2 inheritance")
+M("c04-fqn-order", "C04", "scope.go",
+  "	return s.prefix + s.separator + name", "	return name + s.separator + s.prefix", expect="O1 concat-shape")
+M("c04-fqn-leading-separator", "C04", "scope.go",
+  """	if len(s.prefix) == 0 {
+		return name
+	}
+""", "", expect="O1 concat-shape")
+M("c04-key-writer-leftmost", "C04", "key_gen.go",
+  "		for j := len(maps) - 1; j >= 0; j-- {", "		for j := 0; j < len(maps); j++ {", expect="O3 overlay-order")
+M("c04-snapshot-mutates-scope-tags", "C04", "scope.go",
+  """		tags := make(map[string]string, len(s.tags))
+		for k, v := range ss.tags {
+			tags[k] = v
+		}
+""", """		tags := ss.tags
+		tags["scope"] = ss.prefix
+""", expect="O4 no-mutation")
+M("c04-tags-reassigned-later", "C04", "scope.go",
+  """func (s *scope) Tagged(tags map[string]string) Scope {
+	return s.subscope(s.prefix, tags)""", """func (s *scope) Tagged(tags map[string]string) Scope {
+	if len(tags) == 0 {
+		s.tags = mergeRightTags(s.tags, tags)
+	}
+	return s.subscope(s.prefix, tags)""", expect="O4 immutable")
+B("c04-benign-prefix-eq-empty", "C04", "scope.go",
+  """	if len(s.prefix) == 0 {
+		return name
+	}""", """	if s.prefix == "" {
+		return name
+	}""")
